@@ -2578,6 +2578,15 @@ func (p *Parser) evaluateFunctionCall(ctx context) (Call, error) {
 	// Make sure function has been defined.
 	definedFunction, exists := ctx.findFunction(name, prefix)
 
+	// A function of an imported file can only be called via the alias, not by its prefixed name (mac65d3e_Get()).
+	if exists && len(alias) == 0 && len(p.prefix) == 0 {
+		for importPrefix := range p.importedFiles {
+			if strings.HasPrefix(name, fmt.Sprintf("%s_", importPrefix)) {
+				exists = false
+			}
+		}
+	}
+
 	if !exists {
 		return nil, p.atError(fmt.Sprintf("function %s has not been defined", dotedName), nextToken)
 	}
